@@ -273,6 +273,19 @@ def accepts(obj, text: str) -> bool | str:
     return p.end == len(text)
 
 
+def matches_at_all(obj, text: str) -> bool | str:
+    """False only if parse() raises PestParsingError; any returned Pairs (whatever its span) counts as a match."""
+    from pest import PestParsingError
+
+    try:
+        pairs = obj.parse("r", text)
+    except PestParsingError:
+        return False
+    except Exception as e:  # noqa: BLE001
+        return f"{type(e).__name__}: {e}"
+    return f"matched, span {pairs[0].start}..{pairs[0].end}" if len(pairs) else "matched"
+
+
 def sweep(obj, pred, lo: int, hi: int, step: int = 1):
     """-> (tested, accepted, first mismatches)"""
     from pest import PestParsingError
@@ -329,6 +342,16 @@ def worker(shard: dict) -> dict:  # noqa: PLR0912
             acc.count("sweep_tasks")
             if lo == 0:
                 acc.count("rule_mode_sweeps")
+                # a character terminal needs a character: nothing may match on the empty input, nor at the end of input
+                # after something else has matched
+                got0 = matches_at_all(obj, "")
+                md2 = modes_for(sid + ":after", '"\\u{01}" ~ (' + text + ")")
+                obj2 = md2.get(mode)
+                got1 = matches_at_all(obj2, "\x01") if obj2 is not None else "does not build"
+                acc.count("end_of_input_probes", 2)
+                for what, got in (("", got0), ("\x01", got1)):
+                    if got is not False:
+                        acc.violation("c12-end-of-input", {"spec": sid, "grammar": (md if what == "" else md2).text, "mode": mode, "input": what, "expected_member": False, "observed": got})
             for c, got in bad[:2]:
                 acc.violation(
                     "c12-membership",
@@ -522,7 +545,7 @@ def main(tier: str, seed: int) -> int:
             "Unicode property rules: cross-mode agreement only",
         ],
         evaluations_key="code_points_tested",
-        floors={"code_points_tested": 1_000_000, "rule_mode_sweeps": 40, "unicode_rule_tasks": 20, "escape_forms": 40, "escape_sequence_forms": 100, "ci_choice_families": 10, "ci_choice_probes_accepted": 200},
+        floors={"code_points_tested": 1_000_000, "rule_mode_sweeps": 40, "unicode_rule_tasks": 20, "escape_forms": 40, "escape_sequence_forms": 100, "ci_choice_families": 10, "end_of_input_probes": 80, "ci_choice_probes_accepted": 200},
         exhaustive=not run.quick,
     )
 
